@@ -26,6 +26,7 @@ COMMON_ASSUMPTIONS = [
 
 def _init_sym():
     sys.setrecursionlimit(5000)
+    sys.set_int_max_str_digits(0)
     from symx import shims
 
     shims.install()
@@ -33,6 +34,7 @@ def _init_sym():
 
 def _init_plain():
     sys.setrecursionlimit(5000)
+    sys.set_int_max_str_digits(0)
 
 
 def load_known():
@@ -144,7 +146,7 @@ class Runner:
         for l, dg in zip(leaves, rep["digests"]):
             self.replayed += 1
             l["replayed"] = True
-            if not jobs.same_digest(l["digest"], dg):
+            if not jobs.same_digest(l["digest"], dg, Fraction(res["spec"]["digest_tol"]) if res["spec"].get("digest_tol") else None):
                 l["mismatch"] = True
                 self.mismatches.append(dict(spec=res["spec"], env=l["env"], symbolic=l["digest"], plain=dg))
             elif self.exact_compare:
